@@ -1,6 +1,8 @@
 import json, sys
 import os,glob
-d=json.load(open(sorted(glob.glob(os.path.join(os.path.dirname(os.path.dirname(os.path.abspath(__file__))),'.cache/facts/dev-*/'+os.environ.get('MIRPP_CRATE','anything')+'.mir.json')))[0]))
+import hashlib
+_tag=hashlib.sha256(os.path.abspath(os.environ.get('ANYSCAN_REPO','/repo')).encode()).hexdigest()[:8]
+d=json.load(open(os.path.join(os.path.dirname(os.path.dirname(os.path.abspath(__file__))),'.cache/facts/dev-'+_tag,os.environ.get('MIRPP_CRATE','anything')+'.mir.json')))
 F={}
 for f in d['fns']: F.setdefault(f['path'], []).append(f)
 def pl(p):
